@@ -273,20 +273,23 @@ impl CharProperty {
 
         let r: Vec<_> = cols[0].split("..").collect();
         let start = usize::from_str_radix(String::from(r[0]).trim_start_matches("0x"), 16)?;
-        let end = if r.len() > 1 {
-            usize::from_str_radix(String::from(r[1]).trim_start_matches("0x"), 16)? + 1
+        // `last` is inclusive; it is turned into an exclusive end only after the range check
+        // so that huge values cannot overflow.
+        let last = if r.len() > 1 {
+            usize::from_str_radix(String::from(r[1]).trim_start_matches("0x"), 16)?
         } else {
-            start + 1
+            start
         };
-        if start >= end {
+        if start > last {
             let msg =
                 format!("The start of a character range must be no more than the end, {line}");
             return Err(VibratoError::invalid_format("char.def", msg));
         }
-        if start > 0xFFFF || end > 0x10000 {
+        if last > 0xFFFF {
             let msg = format!("A character range must be no more 0xFFFF, {line}");
             return Err(VibratoError::invalid_format("char.def", msg));
         }
+        let end = last + 1;
 
         let mut categories = vec![];
         for &cate in cols[1..].iter().take_while(|&&col| !col.starts_with('#')) {
